@@ -112,6 +112,8 @@ func runOne(t *testing.T, dir, profile string, seed int64, steps int, replay [][
 	} else {
 		tape = NewTape(seed)
 	}
+	// (the orchestrator reads this line to attribute a crash of the whole process to a run)
+	fmt.Fprintf(os.Stderr, "VERIF-RUN %s %d %d\n", profile, seed, steps)
 	S = NewSim(time.Microsecond)
 	actions.VerifYield = func() { S.YieldG("lock") }
 	services.VerifYield = func() { S.YieldG("lock") }
